@@ -78,6 +78,8 @@ def Row.admissible (r : Row) : Bool :=
 
 def rows : List Row := [
   ⟨0xdbcd3dff176909ef, "clock|cmd/bondmachine/bondmachine.go|init|time.Now|0", [], .insens "seeds math/rand for the simulator and the evolutionary tools; no build path draws from it"⟩,
+  ⟨0xba15681d395285f4, "clock|pkg/bondgo/verif_on.go|verifYield|time.Sleep|0", [], .offpath "verification hook (build tag verif) used by the C12 harness to force interleavings of bondgo's allocator / usage monitor; absent without the tag and inert unless VERIF_SCHED_SEED is set"⟩,
+  ⟨0x89debab41112beff, "clock|pkg/bondmachine/verif_on.go|verifYield|time.Sleep|0", [], .offpath "verification hook (build tag verif, called from Processor_execute in the simulator only) used by the C09 harness to perturb the goroutine schedule; absent without the tag and inert unless VERIF_SCHED_SEED is set"⟩,
   ⟨0xda2645038075ea8b, "clock|pkg/procbuilder/machine.go|init|time.Now|0", [], .insens "seeds math/rand; only Program_generate (evolutionary tools) draws from it"⟩,
   ⟨0x223eb87e9cea34cc, "env|pkg/bmnumbers/dyntype_flopoco.go|FloPoCo.ExportString|os.MkdirTemp|0", [], .insens "temp directory for the external flopoco converter; removed afterwards, its path is not part of any result"⟩,
   ⟨0x3ff1eb979b3960fe, "env|pkg/bmnumbers/dyntype_flopoco.go|floPoCoImport|os.MkdirTemp|0", [], .insens "temp directory for the external flopoco converter; removed afterwards, its path is not part of any result"⟩,
@@ -138,6 +140,7 @@ def rows : List Row := [
   ⟨0x70f443c61cac6533, "range|cmd/bondgo/bondgo.go|main|bgmain.Program|3", ["send"], .insens "notifications to the usage monitor, which keeps per-processor sets and maxima"⟩,
   ⟨0x8b32198757a1d357, "range|cmd/bondgo/bondgo.go|main|functs.Functions|0", ["accum", "calls", "early"], .thm .firstMatchUnique⟩,
   ⟨0xf804d12ed050534e, "range|cmd/bondmachine/bondmachine.go|main|act|0", ["accum", "keyed"], .offpath "simulation loop of cmd/bondmachine (-sim), C09 / C15"⟩,
+  ⟨0xa2e6075d7452df3d, "range|cmd/bondmachine/bondmachine.go|main|act|1", ["accum", "keyed"], .offpath "simulation loop of cmd/bondmachine (-sim): periodic set actions (fix 0fcd9ab), C09 / C15"⟩,
   ⟨0x8ec63f8862df347c, "range|cmd/bondmachine/bondmachine.go|main|bmach.List_bonds()|0", ["output"], .unproved "-list-bonds prints the bond map in map order (a listing on stdout)"⟩,
   ⟨0x0764e81556c3daed, "range|cmd/bondmachine/bondmachine.go|main|rep|0", ["append"], .offpath "simulation loop of cmd/bondmachine (-sim), C09 / C15"⟩,
   ⟨0x500027ddaea9f5e8, "range|cmd/bondmachine/bondmachine.go|main|rep|1", ["append"], .offpath "simulation loop of cmd/bondmachine (-sim), C09 / C15"⟩,
